@@ -68,10 +68,21 @@ def expand(case):
         tops = [s for s in g.rm.children.values() if s.formula is None]
         if tops:
             t = rnd.choice(tops)
-            op = {"op": "new_space", "name": "PB", "formula": {"params": [["p", None]], "base": t.path()}}
+            fd = {"params": [["p", None]], "base": t.path()}
+            if rnd.random() < 0.6:
+                fd["refs"] = {"t2": "p * 10 + 1"}
+                # a cells of the base that reads the returned reference (NameError in the base itself)
+                free = [n for n in ("c6", "c5", "c4") if n not in R.members(t)["cells"] and n not in R.members(t)["refs"]
+                        and not any(n in s.cells or n in s.refs or n in s.children for s in g.rm.subs_of(t))]
+                if free and "t2" not in R.members(t)["refs"] and "t2" not in R.members(t)["cells"]:
+                    oc = {"op": "new_cells", "space": t.path(), "name": free[0], "params": [["x", None]],
+                          "body": "t2 + x", "lam": False, "cached": True}
+                    g.emit(oc)
+                    ops.append(oc)
+            op = {"op": "new_space", "name": "PB", "formula": fd}
             g.emit(op)
             ops.append(op)
-    eg = EditGen(g)
+    eg = EditGen(g, allow_del_base=True)
     ops.append({"op": "evalall"})
     for _ in range(case["nedits"]):
         e = None
